@@ -250,8 +250,10 @@ def host():
                 cells=[(k, [float(v) if isinstance(v, Fraction) else v]) for k, v in sorted(CELLS.items())])
 
 
-def case_of(formula):
+def case_of(formula, reenter=False):
     c = host()
+    if reenter:
+        c['funs'] = [('IDENT', 'ident_reenter', None)]
     c['formula'] = formula
     return c
 
@@ -335,6 +337,12 @@ def check_tree(c):
                 abs(Fraction(rec[1][1]) - want) <= 4 * eb[1] + abs(want) * Fraction(1, 2 ** 50)
         if not ok:
             out.append(('%s rendering %s' % (name, f), None, str(want), rec))
+    # a host function that itself evaluates a formula on the same parser before returning is still the same function
+    if 'IDENT(' in fmin:
+        for name, f in (('minimal', fmin), ('full', ffull)):
+            rec, _ = interp.impl_case(case_of(f, reenter=True))
+            if rec != got[name]:
+                out.append(('%s rendering %s with IDENT re-entering the parser' % (name, f), None, repr(got[name]), repr(rec)))
     # whatever the rounding, the three renderings denote the same tree: their outcomes are identical
     if len(set(map(repr, got.values()))) != 1:
         out.append(('the three renderings disagree: %s | %s | %s' % (fmin, ffull, frand), None, repr(got['minimal']), repr(got)))
